@@ -48,6 +48,24 @@ def encode_beacon(key, hour, peers):
     return bg + b62(bytes(out)) + en
 
 
+def two_leading_zero_hours(key, peers, limit=2):
+    """hours at which the masked body of the beacon for (key, peers) starts with TWO zero bytes (about 1 in 65536): its text form is two
+    bytes short and the reader has to restore both"""
+    v4 = [p for p in peers if len(p) == 6]
+    v6 = [p for p in peers if len(p) != 6]
+    tail = bytes([len(v4) & 0xff]) + b"".join(v4) + b"".join(v6)
+    hits = []
+    for hour in range(65536):
+        plain = bytes([hour >> 8, hour & 0xff]) + tail
+        seed = hashlib.sha512(plain).digest()[0]
+        k = ks(key, 2, seed, 0)
+        if plain[0] ^ k[0] == 0 and plain[1] ^ k[1] == 0:
+            hits.append(hour)
+            if len(hits) >= limit:
+                break
+    return hits
+
+
 def hx(s):
     return s.encode().hex() if s else "-"
 
@@ -85,6 +103,16 @@ class C17(Property):
             for _ in range(6 if thorough else 2):
                 ps = rand_peers(rng)
                 h = rng.randrange(65536)
+                out.append("beacon_rt %s %d none %d - - %s" % (key.hex() or "-", h, h, peers_arg(ps)))
+        # beacons whose masked body starts with two zero bytes (searched for: about one hour stamp in 65536 per list)
+        found = 0
+        for _ in range(40 if thorough else 12):
+            if found >= (6 if thorough else 2):
+                break
+            key = rng.choice([b"mysecretkey", b"test123", b""])
+            ps = rand_peers(rng, rng.choice([0, 1, 2]), rng.choice([0, 1]))
+            for h in two_leading_zero_hours(key, ps):
+                found += 1
                 out.append("beacon_rt %s %d none %d - - %s" % (key.hex() or "-", h, h, peers_arg(ps)))
         # all hour stamps for one list
         ps = rand_peers(rng, 2, 1)
